@@ -26,11 +26,31 @@ pub struct FrCase {
     /// while that flush is parked inside report(), before the other threads call flush()
     #[serde(default)]
     pub pre_roots: u8,
+    /// instead of the overlapping flushes: a thread whose command queue is completely full calls
+    /// cancel() / finishes its root and then calls flush() itself
+    #[serde(default)]
+    pub full: Option<FullCase>,
+}
+
+#[derive(Clone, Debug, Serialize, Deserialize, PartialEq)]
+pub struct FullCase {
+    /// events attached beyond the queue's capacity (they are dropped: permitted)
+    pub over: u16,
+    /// the root is cancelled while the queue is full (cancelable collector only)
+    pub cancel: bool,
+    /// the thread calls flush() itself after the cancel / before it finishes the root
+    pub flush_by_self: bool,
+    /// further roots finished by the thread while the queue is still full (parked behind)
+    pub more_parked: u8,
 }
 
 pub fn strategy() -> BoxedStrategy<FrCase> {
-    (proptest::collection::vec(0u8..4, 1..5), 0u8..3, prop_oneof![1 => Just(0u16), 3 => 50u16..3000], Just(false), prop_oneof![1 => Just(0u8), 2 => 1u8..4])
-        .prop_map(|(b_spans, extra, delay_us, cancelable, pre_roots)| FrCase { b_spans, extra, delay_us, cancelable, pre_roots })
+    let full = prop_oneof![
+        3 => Just(None),
+        1 => (0u16..3000, any::<bool>(), proptest::bool::weighted(0.8), 0u8..3).prop_map(|(over, cancel, flush_by_self, more_parked)| Some(FullCase { over, cancel, flush_by_self, more_parked })),
+    ];
+    (proptest::collection::vec(0u8..4, 1..5), 0u8..3, prop_oneof![1 => Just(0u16), 3 => 50u16..3000], Just(false), prop_oneof![1 => Just(0u8), 2 => 1u8..4], full)
+        .prop_map(|(b_spans, extra, delay_us, cancelable, pre_roots, full)| FrCase { b_spans, extra, delay_us, cancelable, pre_roots, full })
         .boxed()
 }
 
@@ -83,8 +103,79 @@ pub fn install_with(cancelable: bool) {
     std::thread::sleep(Duration::from_millis(100)); // the background thread's initial (empty) cycle
 }
 
+/// A thread fills its command queue completely, then cancels / finishes its root, calls flush()
+/// itself and exits. Whatever was dropped because the queue was full is a permitted omission; a
+/// cancel or a finish signal issued while the queue was full is not lost while the thread lives
+/// (nor when it exits after a cycle made room).
+fn run_full(f: &FullCase, tag: &str) -> Vec<String> {
+    let cancelable = CANCELABLE.load(Ordering::SeqCst);
+    fastrace::flush();
+    SINK.lock().unwrap().clear();
+    let (f2, tag2) = (f.clone(), tag.to_string());
+    let h = std::thread::spawn(move || {
+        let root = Span::root(format!("full-root-{}", tag2), SpanContext::new(TraceId(0xF011), SpanId(0)));
+        let child = Span::enter_with_parent(format!("full-child-{}", tag2), &root);
+        for _ in 0..(10240usize + f2.over as usize) {
+            child.add_event(Event::new("f"));
+        }
+        // the queue is full from here on
+        let mut parked_roots = vec![];
+        for k in 0..f2.more_parked {
+            let r = Span::root(format!("full-more-{}-{}", tag2, k), SpanContext::new(TraceId(0xF100 + k as u128), SpanId(0)));
+            drop(r); // its finish signal is parked
+            parked_roots.push(k);
+        }
+        if f2.cancel {
+            root.cancel();
+        }
+        if f2.flush_by_self {
+            fastrace::flush(); // a cycle drains the queue; what is parked stays with the thread
+        }
+        drop(child);
+        drop(root);
+        // the thread does not exit with a full queue and parked signals (that loss is a known
+        // limitation and would leave state behind for the cases that follow): a cycle makes room,
+        // the next command of the thread replays what is parked
+        fastrace::flush();
+        drop(Span::root("fill-replay", SpanContext::new(TraceId(0xF0FF), SpanId(0))));
+    });
+    let _ = h.join();
+    fastrace::flush();
+    fastrace::flush();
+    let sink = SINK.lock().unwrap().clone();
+    let mut out = vec![];
+    #[cfg(fastrace_verif)]
+    {
+        // every root of the case was finished or cancelled, the signals parked while the queue was
+        // full were replayed by the thread's last command, and cycles have run since
+        let st = fastrace::verif::collector_stats();
+        if st.active_collectors != 0 || st.buffered_span_sets != 0 {
+            out.push(format!("RETAINED: after a full-queue episode (finish/cancel signals parked, the thread called flush() itself, later commands replayed them) the collector still holds {:?}", st));
+        }
+    }
+    let root_name = format!("full-root-{}", tag);
+    let n_root = sink.iter().filter(|m| **m == root_name).count();
+    let n_child = sink.iter().filter(|m| **m == format!("full-child-{}", tag)).count();
+    if f.cancel && cancelable {
+        if n_root + n_child > 0 {
+            out.push(format!("CANCELLED-DELIVERED: a root cancelled while its thread's queue was full (the thread then called flush() itself: {}) was reported ({} root, {} child records)", f.flush_by_self, n_root, n_child));
+        }
+    } else if f.flush_by_self {
+        // the queue had room again when the root was finished: its record and its finish signal arrive
+        if n_root != 1 {
+            out.push(format!("FULL-LOST: a root finished after its thread's full queue had been drained by the thread's own flush() was reported {} times (cancel called: {}, cancelable: {})", n_root, f.cancel, cancelable));
+        }
+    }
+    out
+}
+
 /// returns violations; Err = harness could not set up the overlap (inconclusive case)
 pub fn run(c: &FrCase) -> Result<Vec<String>, String> {
+    if let Some(f) = &c.full {
+        let case = CASE.fetch_add(1, Ordering::SeqCst);
+        let tag = format!("{}x{}", std::process::id(), case);
+        return Ok(run_full(f, &tag));
+    }
     let g = GATE.get().expect("install() first").clone();
     let case = CASE.fetch_add(1, Ordering::SeqCst);
     let tag = format!("{}x{}", std::process::id(), case);
